@@ -48,6 +48,7 @@ def _worker(task):
         out["trusted"] = sorted(eng.trusted)
         out["solver"] = dict(eng.solver.stats)
         out["samples"] = prover.samples
+        out["cases"] = dict(prover.case_reached)
     except Exception as e:          # a crash in the checker is never a verdict
         out["errors"].append(f"{type(e).__name__}: {e}\n" + traceback.format_exc(limit=12))
     out["wall"] = round(time.time() - t0, 2)
